@@ -313,3 +313,70 @@ func setKeys(m map[string]bool) string {
 	sort.Strings(ks)
 	return "{" + strings.Join(ks, ",") + "}"
 }
+
+// ruleTDtoOnce: a reader copies a decoded field into the domain object once. A second store to the
+// same domain field in the same reader, with a value that does not come from the decoded document
+// (a constant default applied under a condition), replaces legitimate decoded values (e.g. sequence 0).
+func ruleTDtoOnce(c *Ctx) {
+	n := 0
+	for _, fn := range pkgFunctions(c.P, modPath) {
+		type st struct {
+			store   *ssa.Store
+			fromDTO bool
+		}
+		byField := map[string][]st{}
+		for _, b := range fn.Blocks {
+			for _, ins := range b.Instrs {
+				s, ok := ins.(*ssa.Store)
+				if !ok {
+					continue
+				}
+				fa, ok := s.Addr.(*ssa.FieldAddr)
+				if !ok {
+					continue
+				}
+				tn, f := structFieldLabel(fa)
+				if !domainTypes[tn] {
+					continue
+				}
+				deps := map[string]bool{}
+				fieldDeps(c, s.Val, dtoTypes, deps, map[ssa.Value]bool{}, 0)
+				from := len(deps) > 0
+				byField[tn+"."+f] = append(byField[tn+"."+f], st{s, from})
+			}
+		}
+		for fld, ss := range byField {
+			anyDTO := false
+			for _, x := range ss {
+				if x.fromDTO {
+					anyDTO = true
+				}
+			}
+			if !anyDTO {
+				continue
+			}
+			n++
+			for _, x := range ss {
+				if x.fromDTO {
+					continue
+				}
+				if _, isConst := x.store.Val.(*ssa.Const); isConst || len(ss) > 1 {
+					c.Fail("T-dto", "once/"+funcName(fn)+"/"+fld, x.store.Pos(), funcName(fn)+" copies "+fld+" from the decoded document and also overwrites it with a value that does not come from the document: a legitimately decoded value is replaced by a default")
+				}
+			}
+			if len(ss) == 1 || allFromDTO(ss, func(i int) bool { return ss[i].fromDTO }) {
+				c.OK("T-dto", "once/"+funcName(fn)+"/"+fld, ss[0].store.Pos(), "the domain field is set only from the decoded document")
+			}
+		}
+	}
+	c.Covered["T-dto:reader_fields"] = n
+}
+
+func allFromDTO[T any](ss []T, f func(int) bool) bool {
+	for i := range ss {
+		if !f(i) {
+			return false
+		}
+	}
+	return true
+}
